@@ -401,16 +401,26 @@ int main(int argc, char **argv) {
 #ifdef PREPROCESS_VERIF
 				PREPROCESS_VERIF_TRACE('C', "peek-branch", sentence_num - 1);
 #endif
-				// If peek throws EOF now our sub-process stopped before its
-				// stdin was closed (producer produces the poison before it
-				// closes the sub-process's stdin.)
-				child_out.peek();
+				// If peek hits EOF the sub-process has finished.  That is fine
+				// when it had already answered everything and its stdin was
+				// closed meanwhile: the producer enqueues the poison before it
+				// closes the sub-process's stdin, so the queue is not empty
+				// any more.  If the queue is still empty the sub-process
+				// stopped before its stdin was closed.
+				bool child_eof = false;
+				try {
+					child_out.peek();
+				} catch (util::EndOfFileException &e) {
+					child_eof = true;
+				}
 				
 				// peek() came back. We have a line-number now, right? If not
 				// sub-process is producing output without any input to base it
 				// on. Which is bad.
-				if (queue.Empty())
+				if (queue.Empty()) {
+					UTIL_THROW_IF(child_eof, util::Exception, "Sub-process stopped before its input was closed, after sentence " << sentence_num << ".");
 					UTIL_THROW(util::Exception, "sub-process is producing more output than it was given input");
+				}
 			}
 		}
 #ifdef PREPROCESS_VERIF
